@@ -147,9 +147,12 @@ func c02SeqSub(dir string) *engine.Sub {
 		name += "-completeness"
 	}
 	return &engine.Sub{
-		Name:  name,
-		Rule:  "one chain of 1..2 delegation OBJECTS (every assignment of lattice commands) serves a sequence of three invocations (every triple of lattice commands, each a fresh invocation token, checked with both APIs): every verdict must be the reference's for that invocation, whatever was asked of the same delegations before (an allowed check, a refused one, the same refused one again); non-trivial = sequences with differing verdicts",
-		Bound: func(string) string { L := len(c02Lattice); return fmt.Sprintf("%d + %d chains x %d command triples", L, L*L, L*L*L) },
+		Name: name,
+		Rule: "one chain of 1..2 delegation OBJECTS (every assignment of lattice commands) serves a sequence of three invocations (every triple of lattice commands, each a fresh invocation token, checked with both APIs): every verdict must be the reference's for that invocation, whatever was asked of the same delegations before (an allowed check, a refused one, the same refused one again); non-trivial = sequences with differing verdicts",
+		Bound: func(string) string {
+			L := len(c02Lattice)
+			return fmt.Sprintf("%d + %d chains x %d command triples", L, L*L, L*L*L)
+		},
 		Setup: func(string) error { chainInit(); return nil },
 		Gen: func(tier string, emit func(any) bool) {
 			L := len(c02Lattice)
